@@ -205,3 +205,31 @@ func (b *vpBuf) Read(p []byte) (int, error) {
 	b.pos += n
 	return n, nil
 }
+
+// VerifC20_Rollback: a checkpoint loaded back into the storage it was taken
+// from, after the storage ran on, restores exactly the saved contents: bytes
+// written afterwards - also in units that were not allocated at save time - are
+// gone.
+func VerifC20_Rollback() {
+	unit := uint64(1 + 3*verifrt.Choice("unit", 2)) // 1 or 4
+	const capN = 9
+	s := NewStorageWithUnitSize(capN, unit)
+	var ref [capN]byte
+	a0 := verifrt.Choice("addr", capN)
+	d0 := verifrt.Byte("data")
+	verifrt.Assert(s.Write(uint64(a0), []byte{d0}) == nil, "write")
+	ref[a0] = d0
+	var w vpBuf
+	verifrt.Assert(s.SaveCheckpoint(&w) == nil, "save-succeeds")
+	a1 := verifrt.Choice("late-addr", capN)
+	verifrt.Assert(s.Write(uint64(a1), []byte{verifrt.Byte("late-data")}) == nil, "late-write")
+	verifrt.Assert(s.LoadCheckpoint(&vpBuf{data: w.data}) == nil, "load-back-succeeds")
+	for i := 0; i < capN; i++ {
+		got, err := s.Read(uint64(i), 1)
+		verifrt.Assert(err == nil && len(got) == 1, "read-back")
+		if err == nil && len(got) == 1 {
+			verifrt.Assert(got[0] == ref[i], "rolled-back-contents-are-the-saved-contents")
+		}
+	}
+	verifrt.Cover("end")
+}
